@@ -3,8 +3,8 @@
  * Postcondition = C14: "bit-interleave of its coordinates with the first coordinate in the
  * least-significant position", on the domain where the storage length is representable
  * (every coordinate < 2^floor(64/N)). */
+#include "array_at.h"   /* the array backend's lookup contract, for the composed lemma h_morton_array_compose (defines DIMS_OUT if the cell does not) */
 #include "../stubs/types.h"
-#include "array_at.h"   /* the array backend's lookup contract, for the composed lemma h_morton_array_compose */
 #define B_IN_SCALAR_T size_t   /* contravariant_output_t::scalar_t: flat index type of the array-like storage */
 #define MORTON_BITS (64 / DIMS_IN)
 #define MORTON_COORD_OK(v) ((v) >= 0 && (MORTON_BITS >= 64 || (uint64_t)(v) < ((uint64_t)1 << (MORTON_BITS % 64))))
